@@ -8,8 +8,10 @@ WT="/tmp/wt/${ID}"     # the agent's own scratch worktree (some demos insist on 
 BASE=/tmp/sv/baseline_failed.txt
 [ -d "$WT" ] || { git -C /repo worktree add --detach "$WT" HEAD >/dev/null 2>&1 && cp /repo/kopf/_cogs/helpers/versions.py "$WT/kopf/_cogs/helpers/versions.py"; }
 git -C "$WT" checkout -- kopf
+git -C "$WT" checkout -q --detach "$(git -C /repo rev-parse HEAD)" 2>/dev/null   # validate against the CURRENT tree of /repo (with its fix: commits)
 mkdir -p "$WT/_seed"; cp "$SD"/demo*.py "$WT/_seed/" 2>/dev/null; [ -d "$SD/extra" ] && cp "$SD"/extra/demo*.py "$WT/_seed/" 2>/dev/null
 PATCH="$SD/patch$K.diff"; [ -f "$PATCH" ] || PATCH="$SD/extra/patch$K.diff"
+[ -f "$SD/patch$K.rebased.diff" ] && PATCH="$SD/patch$K.rebased.diff"     # rebased onto the fixed tree
 META="$SD/meta$K.json"; [ -f "$META" ] || META="$SD/extra/meta$K.json"
 DEMO="_seed/demo$K.py"
 cd "$WT"
@@ -21,7 +23,7 @@ rundemo() {
   fi
   echo $?
 }
-APPLY=0; git apply --check "$PATCH" 2>/dev/null && git apply "$PATCH" && APPLY=1
+APPLY=0; if git apply --check "$PATCH" 2>/dev/null; then git apply "$PATCH" && APPLY=1; elif patch -p1 -s --dry-run -i "$PATCH" >/dev/null 2>&1; then patch -p1 -s -i "$PATCH" && APPLY=1; fi
 WITH=$(rundemo /tmp/sv/${ID}_${K}.with.log)
 timeout 1500 /venv/bin/python -m pytest -q -p no:cacheprovider --timeout=900 --continue-on-collection-errors --ignore=_seed -rfE tests 2>&1 | grep -E "^(FAILED|ERROR) " | sed 's/ - .*//' | sort > /tmp/sv/${ID}_${K}.failed.txt
 git checkout -- kopf
